@@ -678,13 +678,15 @@ def renderRoot (c : RCtx) (root : List Node) (env : Env) : Prog Status :=
 def renderFileWith (P : Prims) (O : OutPrims) (cfg : Cfg) (fs : FS)
     (inner : Nat → Bytes → Env → Prog (Status × Bytes)) (line : Nat) (filename : Bytes) (env : Env) :
     Prog (Status × Bytes) :=
-  let src? : Option Bytes := match fs.read filename with
-    | .content b => some b
-    | .notExist => fs.cache filename
-    | .otherError => none
+  let src? : Except Cause Bytes := match fs.read filename with
+    | .content b => .ok b
+    | .notExist => (match fs.cache filename with
+        | some b => .ok b
+        | none => .error (.other "notExist"))
+    | .otherError => .error .io
   match src? with
-  | none => .fail (.plain (.other "notExist"))
-  | some src =>
+  | .error c => .fail (.plain c)
+  | .ok src =>
     match compileSource cfg.delims src line with
     | .err e => .fail (.located e)
     | .panic w => .panic w
